@@ -1,0 +1,103 @@
+//go:build verif
+// +build verif
+
+package ed25519
+
+import (
+	"io"
+
+	"github.com/oasisprotocol/ed25519/internal/ge25519"
+	"github.com/oasisprotocol/ed25519/internal/modm"
+)
+
+// Verification hooks and exports.  Compiled only with the `verif` build tag;
+// nothing in this file is reachable in a normal build.
+
+// Batch events, reported at the linearization points of VerifyBatch.
+const (
+	verifEvChunkBegin  = 1 // a = offset, b = batchSize
+	verifEvFailBatch   = 2 // a = index
+	verifEvMarked      = 3 // a = index (S >= L; no forced fallback)
+	verifEvEquation    = 4 // a = 1 if the batch equation held
+	verifEvFallback    = 5 // a = offset, b = batchSize
+	verifEvFallbackOne = 6 // a = index, b = 1 if entry reported valid
+	verifEvChunkEnd    = 7 // a = offset, b = batchSize
+	verifEvRemainder   = 8 // a = index, b = 1 if entry reported valid
+)
+
+// Exported names of the events for harnesses.
+const (
+	VerifEvChunkBegin  = verifEvChunkBegin
+	VerifEvFailBatch   = verifEvFailBatch
+	VerifEvMarked      = verifEvMarked
+	VerifEvEquation    = verifEvEquation
+	VerifEvFallback    = verifEvFallback
+	VerifEvFallbackOne = verifEvFallbackOne
+	VerifEvChunkEnd    = verifEvChunkEnd
+	VerifEvRemainder   = verifEvRemainder
+)
+
+// VerifBatchHook, when non-nil, observes VerifyBatch.  call is the entropy
+// reader passed to that call (used by harnesses as the call's identity).
+var VerifBatchHook func(call io.Reader, ev, a, b int)
+
+// VerifBatchHeap names the scratch heap for harnesses.
+type VerifBatchHeap = batchHeap
+
+// VerifHeapHook, when non-nil, observes every Bos-Coster iteration of
+// multiScalarmultVartime: phase 0 = before the subtraction of an iteration,
+// phase 1 = loop exit.
+var VerifHeapHook func(h *VerifBatchHeap, phase, max1, max2, limbSize int, extended bool)
+
+func verifBatchEvent(call io.Reader, ev, a, b int) {
+	if h := VerifBatchHook; h != nil {
+		h(call, ev, a, b)
+	}
+}
+
+func verifHeapEvent(hp *batchHeap, phase int, max1, max2 heapIndex, limbSize int, extended bool) {
+	if h := VerifHeapHook; h != nil {
+		h(hp, phase, int(max1), int(max2), limbSize, extended)
+	}
+}
+
+func verifBool(b bool) int {
+	if b {
+		return 1
+	}
+	return 0
+}
+
+// Accessors for the heap state.
+
+func (h *batchHeap) VerifSize() int                    { return h.size }
+func (h *batchHeap) VerifHeapIndex(i int) int          { return int(h.heap[i]) }
+func (h *batchHeap) VerifScalar(i int) *modm.Bignum256 { return &h.scalars[i] }
+func (h *batchHeap) VerifPoint(i int) *ge25519.Ge25519 { return &h.points[i] }
+
+// Exports of unexported functions (conformance drivers call these directly).
+
+func VerifScMinimal(scalar []byte) bool            { return scMinimal(scalar) }
+func VerifIsSmallOrderVartime(s []byte) bool       { return isSmallOrderVartime(s) }
+func VerifWriteDom2(w io.Writer, f byte, c []byte) { writeDom2(w, dom2Flag(f), c) }
+
+const (
+	VerifMinBatchSize  = minBatchSize
+	VerifMaxBatchSize  = maxBatchSize
+	VerifHeapBatchSize = heapBatchSize
+	VerifLimb128bits   = limb128bits
+)
+
+// VerifMultiScalarmult runs multiScalarmultVartime on count (odd, >= 5)
+// caller-supplied points and scalars using the given scratch heap.
+func VerifMultiScalarmult(r *ge25519.Ge25519, heap *VerifBatchHeap, points []ge25519.Ge25519, scalars []modm.Bignum256, count int) {
+	copy(heap.points[:], points[:count])
+	copy(heap.scalars[:], scalars[:count])
+	multiScalarmultVartime(r, heap, count)
+}
+
+// VerifBatchIsNeutral exposes the cofactored identity test used on the batch sum.
+func VerifBatchIsNeutral(p *ge25519.Ge25519) bool { return isNeutralVartime(p) }
+
+// VerifTestBatchState returns the package-level test switches (must stay untouched).
+func VerifTestBatchState() (bool, [32]byte) { return testBatchSaveY, testBatchY }
